@@ -175,6 +175,19 @@ fn well_formed(p: &Prog) -> Result<(), String> {
     Err("does not reach END".into())
 }
 
+/// RAM images of the one-element-body programs (for C13's stimulus-at-every-phase sweep).
+pub fn images_for_phase_sweep() -> Vec<(String, [u8; 240])> {
+    let b = bodies();
+    let mut v = vec![];
+    for (i, x) in b.iter().enumerate() {
+        for isr in 0..3 {
+            let p = build(&[x.clone()], isr, true, true, (i + isr) % INITS.len());
+            v.push((p.name.clone(), p.ram));
+        }
+    }
+    v
+}
+
 fn machine(p: &Prog) -> Machine {
     let case = Case { cpu: Cpu { r: [0, 0, 0], pc: 0, fr: 0, sp: 0 }, scratch: (0, 0), ram: p.ram, inputs: [0; 4], di1: 0 };
     case.machine()
